@@ -392,67 +392,51 @@ def rule_blendsrc(ctx):
     ctx.floor(rid + ".uses", 2)
 
 
-def rule_alpha_region(ctx):
-    """when a frame is alpha-blended, the region of its alpha plane is looked at"""
-    from ..mirutil import alias_closure
-    rid = "R-ALPHA-REGION"
-    ctx.rule(rid, "blend() positions the new frame with offsets computed from the region of the colour channel being blended.  The alpha "
-                  "plane used by the Blend / MulAdd modes is another channel with its own region (Gaborish / EPF swap the colour channels "
-                  "to their padded region, chroma and extra-channel upsampling and VarDCT group alignment give different origins), so "
-                  "the code has to read regions_and_shifts()[alpha index] somewhere - as it does for the base frame's alpha - before "
-                  "indexing the plane with the colour offsets.  Decided by data flow: an index derived from the alpha-channel index "
-                  "reaches an indexing of the new frame's region list")
-    f = ctx.prog.crate("jxl_render").fn("jxl_render::blend::blend")
-    if f is None:
-        ctx.anchor_missing(rid, "jxl_render::blend::blend")
-        return
-    ctx.seen(f)
-    seeds = set()
-    for b, t in f.calls():
-        c = callee(t)
-        if c and "alpha" in c["fn"].split("::")[-1] and t[3] and len(t[3]) == 1:
-            seeds.add(t[3][0])
-    for blk in f.blocks:
-        if blk[2]:
-            continue
-        for st in blk[0]:
-            if st[0] == "=" and len(st[1]) == 1 and st[2][0] == "use":
-                p = op_place(st[2][1])
-                if p is not None and any(isinstance(e, list) and e[0] == "." and e[2] == "alpha_channel" for e in p[1:]):
-                    seeds.add(st[1][0])
-    if not seeds:
-        ctx.anchor_missing(rid, "the alpha-channel index in blend()")
-        return
-    A = set(alias_closure(f, seeds))
-    for _ in range(4):
-        grew = False
+def scalar_taint(f, seeds):
+    """forward closure over assignments (operands, indices) and call results; whole locals"""
+    T = set(seeds)
+
+    def tainted(p):
+        return p is not None and (p[0] in T or any(isinstance(e, list) and e[0] == "[]" and e[1] in T for e in p[1:]))
+
+    def rv_places(rv):
+        k = rv[0]
+        if k in ("ref", "rawptr"):
+            return [rv[2]]
+        if k == "discr":
+            return []
+        ops = [rv[1]] if k in ("use", "repeat") else ([rv[2]] if k in ("cast", "un") else ([rv[2], rv[3]] if k == "bin" else (rv[2] if k == "agg" else [])))
+        return [op_place(o) for o in ops if op_place(o) is not None]
+
+    changed = True
+    while changed:
+        changed = False
         for blk in f.blocks:
             if blk[2]:
                 continue
             for st in blk[0]:
-                if st[0] == "=" and len(st[1]) == 1 and st[1][0] not in A:
-                    rv = st[2]
-                    ops = [rv[2], rv[3]] if rv[0] == "bin" else ([rv[1]] if rv[0] == "use" else ([rv[2]] if rv[0] == "cast" else []))
-                    for o in ops:
-                        p = op_place(o)
-                        if p is not None and p[0] in A:
-                            A.add(st[1][0])
-                            grew = True
-        if not grew:
-            break
-        A = set(alias_closure(f, A))
-    # which frame does each regions_and_shifts() call look at, and with which index is the list indexed?
-    new_grid_arg = next((i for i in range(1, f.argc + 1) if "&mut jxl_render::image::ImageWithRegion" in f.local_ty(i)), None)
-    from ..mirutil import Defs, access_path
+                if st[0] == "=" and st[1][0] not in T and any(tainted(p) for p in rv_places(st[2])):
+                    T.add(st[1][0])
+                    changed = True
+            t = blk[1]
+            if t[0] == "call" and t[3] and t[3][0] not in T and any(tainted(op_place(a)) for a in t[2]):
+                T.add(t[3][0])
+                changed = True
+    return T
+
+
+def region_lists_indexed_by(f, T, grid_of_recv):
+    """names of the grids whose regions_and_shifts() list is indexed, in f, by a local in T; grid_of_recv(f, defs, local) names the grid"""
+    from ..mirutil import Defs, alias_closure
     defs = Defs(f)
-    looked = []
+    out = set()
+    n = 0
     for b, t in f.calls():
         c = callee(t)
         if not (c and c["fn"].endswith("ImageWithRegion::regions_and_shifts") and t[3] and len(t[3]) == 1 and t[2]):
             continue
         recv = op_local(t[2][0])
-        ap = access_path(f, defs, recv) if recv is not None else None
-        on_new = ap is not None and ap[0] == new_grid_arg and not ap[1]
+        grid = grid_of_recv(f, defs, recv) if recv is not None else None
         res = set(alias_closure(f, {t[3][0]}, through_fields=False))
         for blk in f.blocks:
             if blk[2]:
@@ -470,18 +454,96 @@ def rule_alpha_region(ctx):
                     if pl[0] in res:
                         for e in pl[1:]:
                             if isinstance(e, list) and e[0] == "[]":
-                                looked.append((on_new, e[1] in A, st[3]))
-    ctx.count(rid + ".region-list-indexings", len(looked))
-    if not looked:
-        ctx.anchor_missing(rid, "indexings of regions_and_shifts() in blend()")
-        return
-    if any(on_new and by_alpha for on_new, by_alpha, _ in looked):
-        ctx.ok(rid, "alpha-region-consulted", "the region of the new frame's alpha plane is read", nontrivial=True, fn=f)
-    else:
-        ctx.bad(rid, "alpha-region-ignored", "blend() never reads the region of the new frame's alpha plane (%d indexings of a region list, none "
-                "of the new frame's by the alpha index): the plane is indexed with the colour channel's offsets, which is wrong whenever "
-                "the two regions differ (a Gaborish frame blended with alpha at a negative offset renders opaque rows as transparent)"
-                % len(looked), fn=f)
+                                n += 1
+                                if e[1] in T and grid is not None:
+                                    out.add(grid)
+    return out, n
+
+
+def rule_alpha_region(ctx):
+    """when planes are alpha-blended, the regions of the alpha planes are looked at"""
+    from ..mirutil import access_path
+    rid = "R-ALPHA-REGION"
+    ctx.rule(rid, "blend() and patch() position the planes with offsets computed from the region of the channel being blended.  The alpha "
+                  "plane used by the Blend / MulAdd modes is another channel with its own region (Gaborish / EPF swap the colour channels "
+                  "to their padded region; chroma and extra-channel upsampling and VarDCT group alignment give other origins), so the "
+                  "region list of every grid an alpha plane is taken from has to be read at the alpha index: the new frame's in "
+                  "blend() (the base frame's always was), the patched frame's and the patch source's in patch().  Decided by data "
+                  "flow: an index derived from the alpha-channel index reaches an indexing of that grid's regions_and_shifts(), in the "
+                  "function itself or in a closure applied to an alpha-derived value (Option::map / zip / filter ..)")
+    cr = ctx.prog.crate("jxl_render")
+    total = 0
+    for name, wanted in ((BLEND, ("new_grid",)), ("jxl_render::blend::patch", ("base_grid", "patch_ref_grid"))):
+        f = cr.fn(name)
+        if f is None:
+            ctx.anchor_missing(rid, name)
+            return
+        ctx.seen(f)
+        short = name.split("::")[-1]
+        seeds = alpha_index_seeds(ctx, f)
+        if not seeds:
+            ctx.anchor_missing(rid, "the alpha-channel index in %s()" % short)
+            return
+        A = scalar_taint(f, seeds)
+        argnames = {i: f.local_name(i) for i in range(1, f.argc + 1)}
+        for w in wanted:
+            if w not in argnames.values():
+                ctx.anchor_missing(rid, "%s(): parameter %s" % (short, w))
+                return
+
+        def grid_in_fn(g, defs, l):
+            ap = access_path(g, defs, l)
+            return argnames.get(ap[0]) if ap is not None and not ap[1] else None
+
+        found, n = region_lists_indexed_by(f, A, grid_in_fn)
+        # closures applied to an alpha-derived value: their parameters carry the alpha index
+        for blk in f.blocks:
+            if blk[2] or blk[1][0] != "call":
+                continue
+            t = blk[1]
+            args = [op_local(a) for a in t[2]]
+            if not any(a in A for a in args if a is not None):
+                continue
+            for a in args:
+                if a is None:
+                    continue
+                for d in Defs(f).of(a):
+                    if d[2] == "assign" and d[3][2][0] == "agg" and d[3][2][1][0] == "closure":
+                        g = cr.fns.get(d[3][2][1][1])
+                        if g is None:
+                            continue
+                        ctx.seen(g)
+                        Ag = scalar_taint(g, set(range(2, g.argc + 1)))
+                        upv = {}
+                        for nm, pl in (g.upvar_names or []):
+                            fl = [e for e in pl[1:] if isinstance(e, list) and e[0] == "."]
+                            if fl:
+                                upv[fl[0][1]] = nm
+
+                        def grid_in_closure(h, defs, l, upv=upv):
+                            ap = access_path(h, defs, l)
+                            if ap is None or ap[0] != 1 or not ap[1]:
+                                return None
+                            first = ap[1][0]
+                            for k, nm in upv.items():
+                                if first == nm or first == "*" + nm or first == str(k):
+                                    return nm
+                            return None
+
+                        fg, ng = region_lists_indexed_by(g, Ag, grid_in_closure)
+                        found |= fg
+                        n += ng
+        total += n
+        for w in wanted:
+            key = "alpha-region-ignored" if (short, w) == ("blend", "new_grid") else "%s|alpha-region-ignored:%s" % (short, w)
+            if w in found:
+                ctx.ok(rid, key.replace("ignored", "consulted"), "%s(): the region of %s's alpha plane is read" % (short, w), nontrivial=True, fn=f)
+            else:
+                ctx.bad(rid, key, "%s() never reads the region of the alpha plane it takes from %s: the plane is indexed with the offsets of "
+                        "the channel being blended, which is wrong whenever the two regions differ (a Gaborish frame blended with alpha at "
+                        "a negative offset renders opaque rows as transparent; a subsampled alpha runs out of range)" % (short, w), fn=f)
+    ctx.count(rid + ".region-list-indexings", total)
+    ctx.floor(rid + ".region-list-indexings", 6)
 
 
 def rule_alpha_depth(ctx):
@@ -507,10 +569,32 @@ def rule_alpha_depth(ctx):
     ctx.floor(rid + ".conversions", 6)
 
 
-def alpha_depth_in(ctx, rid, f):
-    short = f.path.split("::")[-1]
+def alpha_index_seeds(ctx, f):
+    """locals of f that hold the alpha-channel index: loads of `.alpha_channel`, and what same-crate helpers that load it hand out"""
     T = set()
-    helper_res = {t[3][0] for b, t in f.calls() if callee(t) and "alpha" in callee(t)["fn"].split("::")[-1] and t[3] and len(t[3]) == 1}
+    # helpers that hand out the alpha index: same-crate functions that load `.alpha_channel` themselves (or carry "alpha" in their name)
+    cr = ctx.prog.crate("jxl_render")
+
+    def loads_alpha_channel(g):
+        for blk in g.blocks:
+            for st in blk[0]:
+                if st[0] == "=" and st[2][0] in ("use", "cast"):
+                    q = op_place(st[2][1] if st[2][0] == "use" else st[2][2])
+                    if q is not None and any(isinstance(e, list) and e[0] == "." and e[2] == "alpha_channel" for e in q[1:]):
+                        return True
+        return False
+
+    helper_res = set()
+    for b, t in f.calls():
+        c = callee(t)
+        if not (c and t[3] and len(t[3]) == 1):
+            continue
+        g = cr.fns.get(c.get("res") or c["fn"]) or cr.fns.get(c["fn"])
+        if "alpha" in c["fn"].split("::")[-1] or (g is not None and g.path.startswith("jxl_render::blend::") and loads_alpha_channel(g)):
+            helper_res.add(t[3][0])
+            ty = f.local_ty(t[3][0])
+            if not ty.startswith("(") and ("Option<usize>" in ty or ty == "usize"):
+                T.add(t[3][0])
     for blk in f.blocks:
         if blk[2]:
             continue
@@ -524,6 +608,12 @@ def alpha_depth_in(ctx, rid, f):
                 if fl and (fl[-1][2] == "alpha_channel" or
                            (len(p) == 2 and p[0] in helper_res and "Option<usize>" in f.local_ty(st[1][0]))):
                     T.add(st[1][0])
+    return T
+
+
+def alpha_depth_in(ctx, rid, f):
+    short = f.path.split("::")[-1]
+    T = alpha_index_seeds(ctx, f)
     if not T:
         ctx.anchor_missing(rid, "the alpha-channel index in %s()" % short)
         return None
